@@ -48,7 +48,7 @@ STEPF = z3.Function("Step", sv.IntS, sv.IntS, sv.IntS, sv.RealS, sv.RealS, sv.Re
 def interp_axioms(ctx):
     t, t0, t1 = z3.Ints("ax_t ax_t0 ax_t1")
     v0, v1, st = z3.Reals("ax_v0 ax_v1 ax_st")
-    dt = z3.ToReal(t - t0) / z3.ToReal(t1 - t0)
+    dt = sv.rdiv(z3.ToReal(t - t0), z3.ToReal(t1 - t0))
     return [
         z3.ForAll([t, t0, t1, v0, v1], LIN(t, t0, t1, v0, v1) == v0 + dt * (v1 - v0), patterns=[LIN(t, t0, t1, v0, v1)]),
         z3.ForAll([t, t0, t1, st, v0, v1], STEPF(t, t0, t1, st, v0, v1) == If(dt > st, v1, v0),
